@@ -73,6 +73,9 @@ func genHandles(seed uint64, tier string) *Plan {
 	stall := []int{nitro.SiteOpenInc, nitro.SiteCloseDec, nitro.SiteCloseRetire, nitro.SiteCloseMove, nitro.SiteCloseGC, nitro.SiteGCTry,
 		nitro.SiteGCRelease, nitro.SiteCollectCheck, nitro.SiteCollectStore, nitro.SiteCollectSend}
 	p.Sched = GenSched(r, seed, 100*p.NumOps()+200, stall)
+	if r.Bool(0.5) {
+		k["varkeys"] = 1
+	}
 	return p
 }
 
